@@ -21,14 +21,18 @@ import (
 	"net/netip"
 	"os"
 	"path/filepath"
+	"sort"
 	"strconv"
 	"strings"
+	"sync"
+	"sync/atomic"
 	"testing"
 	"time"
 
 	"github.com/AdguardTeam/AdGuardHome/internal/client"
 	"github.com/AdguardTeam/AdGuardHome/internal/filtering"
 	"github.com/AdguardTeam/AdGuardHome/internal/filtering/rulelist"
+	"github.com/AdguardTeam/AdGuardHome/internal/querylog"
 	"github.com/AdguardTeam/AdGuardHome/internal/schedule"
 	"github.com/AdguardTeam/AdGuardHome/internal/vutil"
 	"github.com/AdguardTeam/dnsproxy/proxy"
@@ -160,7 +164,12 @@ func c01ParseIPList(s string) (ips []net.IP) {
 func c01RRTok(rr dns.RR, withStr bool) string {
 	h := rr.Header()
 	hd := func(k string) string {
-		return k + ":" + vutil.Hex(h.Name) + ":" + strconv.Itoa(int(h.Ttl)) + ":"
+		ttl := h.Ttl
+		if n := c01TTLNorm; n > 0 && !withStr && ttl < n && ttl+5 >= n {
+			ttl = n
+		}
+
+		return k + ":" + vutil.Hex(h.Name) + ":" + strconv.Itoa(int(ttl)) + ":"
 	}
 	switch v := rr.(type) {
 	case *dns.A:
@@ -497,8 +506,11 @@ func (c *c01Case) oracleFields() (f []string) {
 
 // ---------------------------------------------------------------- the system under test
 
+// c01Upstream is the recording mock upstream.  Calls are recorded per request
+// id so that concurrent queries (reload mode) can be told apart.
 type c01Upstream struct {
-	calls  []string
+	mu     sync.Mutex
+	calls  map[uint16][]string
 	rcode  int
 	answer []dns.RR
 }
@@ -507,7 +519,12 @@ var _ upstream.Upstream = (*c01Upstream)(nil)
 
 func (u *c01Upstream) Exchange(m *dns.Msg) (resp *dns.Msg, err error) {
 	q := m.Question[0]
-	u.calls = append(u.calls, vutil.Hex(q.Name)+":"+strconv.Itoa(int(q.Qtype)))
+	u.mu.Lock()
+	if u.calls == nil {
+		u.calls = map[uint16][]string{}
+	}
+	u.calls[m.Id] = append(u.calls[m.Id], vutil.Hex(q.Name)+":"+strconv.Itoa(int(q.Qtype)))
+	u.mu.Unlock()
 	resp = new(dns.Msg).SetReply(m)
 	resp.Rcode = u.rcode
 	for _, rr := range u.answer {
@@ -517,22 +534,66 @@ func (u *c01Upstream) Exchange(m *dns.Msg) (resp *dns.Msg, err error) {
 	return resp, nil
 }
 
+func (u *c01Upstream) take(id uint16) (calls []string) {
+	u.mu.Lock()
+	defer u.mu.Unlock()
+	calls = u.calls[id]
+	delete(u.calls, id)
+
+	return calls
+}
+
 func (u *c01Upstream) Address() string { return "c01.upstream.example" }
 func (u *c01Upstream) Close() error    { return nil }
+
+// c01QueryLog records the query-log entry of every request, keyed by the
+// request message.
+type c01QueryLog struct {
+	querylog.QueryLog
+
+	mu      sync.Mutex
+	entries map[*dns.Msg]*querylog.AddParams
+}
+
+func (l *c01QueryLog) Add(p *querylog.AddParams) {
+	l.mu.Lock()
+	defer l.mu.Unlock()
+	if l.entries == nil {
+		l.entries = map[*dns.Msg]*querylog.AddParams{}
+	}
+	l.entries[p.Question] = p
+}
+
+func (l *c01QueryLog) ShouldLog(string, uint16, uint16, []string) bool { return true }
+
+func (l *c01QueryLog) take(req *dns.Msg) (p *querylog.AddParams) {
+	l.mu.Lock()
+	defer l.mu.Unlock()
+	p = l.entries[req]
+	delete(l.entries, req)
+
+	return p
+}
 
 type c01Env struct {
 	s       *Server
 	f       *filtering.DNSFilter
 	fconf   *filtering.Config
 	ups     *c01Upstream
-	ql      *testQueryLog
+	ql      *c01QueryLog
 	dataDir string
 	storage *client.Storage
+
+	// sequence / reload modes
+	cur        *c01Case
+	nextID     atomic.Uint32
+	reloadStop chan struct{}
+	reloadDone chan struct{}
 }
 
-func c01NewEnv(t *testing.T) (e *c01Env) {
+func c01NewEnv(t *testing.T, cacheSize uint32) (e *c01Env) {
 	filtering.InitModule()
-	e = &c01Env{ups: &c01Upstream{}, ql: &testQueryLog{}, dataDir: t.TempDir()}
+	e = &c01Env{ups: &c01Upstream{}, ql: &c01QueryLog{}, dataDir: t.TempDir()}
 	e.fconf = &filtering.Config{
 		DataDir:           e.dataDir,
 		ProtectionEnabled: true,
@@ -571,6 +632,7 @@ func c01NewEnv(t *testing.T) (e *c01Env) {
 		TLSConf:        &TLSConfig{},
 		Config: Config{
 			UpstreamMode:     UpstreamModeLoadBalance,
+			CacheSize:        cacheSize,
 			EDNSClientSubnet: &EDNSClientSubnet{Enabled: false},
 			ClientsContainer: EmptyClientsContainer{},
 		},
@@ -585,7 +647,10 @@ func c01NewEnv(t *testing.T) (e *c01Env) {
 	if err = s.Start(); err != nil {
 		t.Fatal(err)
 	}
-	t.Cleanup(func() { _ = s.Stop() })
+	t.Cleanup(func() {
+		e.stopReload()
+		_ = s.Stop()
+	})
 
 	return e
 }
@@ -707,19 +772,21 @@ func c01MsgFields(m *dns.Msg) (f []string) {
 	return f
 }
 
-func (e *c01Env) run(fields []string) (obs []string) {
-	c := c01Decode(fields)
-	e.apply(c)
+// c01TTLNorm, when non-zero, is the lowest TTL of the scripted upstream answer:
+// a record TTL at most 5 s below it is rendered as that value (ageing of an
+// entry of the dnsproxy cache; sequence mode only).
+var c01TTLNorm uint32
 
+// query sends one request through handleDNSRequest and renders the
+// observation: response, upstream calls made for it, query-log record.
+func (e *c01Env) query(cip netip.Addr, qname string, qtype uint16) (obs []string) {
 	req := &dns.Msg{}
-	req.Id = 4242
+	req.Id = uint16(e.nextID.Add(1))
 	req.RecursionDesired = true
-	req.Question = []dns.Question{{Name: c.qname, Qtype: c.qtype, Qclass: dns.ClassINET}}
+	req.Question = []dns.Question{{Name: qname, Qtype: qtype, Qclass: dns.ClassINET}}
 	// TCP code path: over UDP dnsproxy truncates an upstream answer above 512
 	// bytes (no EDNS in the request) inside Resolve, before any filtering.
-	pctx := &proxy.DNSContext{Proto: proxy.ProtoTCP, Req: req, Addr: netip.AddrPortFrom(c.cip, 34567)}
-	e.ups.calls, e.ups.rcode, e.ups.answer = nil, c.urcode, c.uans
-	e.ql.lastParams = nil
+	pctx := &proxy.DNSContext{Proto: proxy.ProtoTCP, Req: req, Addr: netip.AddrPortFrom(cip, 34567)}
 
 	err := e.s.handleDNSRequest(nil, pctx)
 	// An expired pause re-enables protection in a goroutine; let it finish
@@ -727,14 +794,16 @@ func (e *c01Env) run(fields []string) (obs []string) {
 	for e.s.protectionUpdateInProgress.Load() {
 		time.Sleep(50 * time.Microsecond)
 	}
+	calls := e.ups.take(req.Id)
+	p := e.ql.take(req)
 	if err != nil || pctx.Res == nil {
 		return []string{"err"}
 	}
 
 	obs = append([]string{"ok"}, c01MsgFields(pctx.Res)...)
-	obs = append(obs, strconv.Itoa(len(e.ups.calls)))
-	obs = append(obs, e.ups.calls...)
-	if p := e.ql.lastParams; p == nil {
+	obs = append(obs, strconv.Itoa(len(calls)))
+	obs = append(obs, calls...)
+	if p == nil {
 		obs = append(obs, "noqlog")
 	} else {
 		obs = append(obs, "qlog", strconv.Itoa(int(p.Result.Reason)), vutil.B(p.Result.IsFiltered), vutil.Hex(p.Result.ServiceName))
@@ -749,6 +818,124 @@ func (e *c01Env) run(fields []string) (obs []string) {
 	}
 
 	return obs
+}
+
+// configure applies a case and points the mock upstream at its script.
+func (e *c01Env) configure(c *c01Case) {
+	e.stopReload()
+	e.apply(c)
+	e.ups.rcode, e.ups.answer = c.urcode, c.uans
+	e.cur = c
+}
+
+// c01Filler is the bulk list of the reload mode; the driver generates the same lines.
+func c01Filler(n int) (lines []string) {
+	lines = make([]string, n)
+	for i := range lines {
+		lines[i] = "||f" + strconv.Itoa(i) + ".bulk-filler.test^"
+	}
+
+	return lines
+}
+
+func (e *c01Env) stopReload() {
+	if e.reloadStop != nil {
+		close(e.reloadStop)
+		<-e.reloadDone
+		e.reloadStop, e.reloadDone = nil, nil
+	}
+}
+
+// startReload rebuilds the engines of the unchanged rule set in a loop through
+// the entry point every settings / refresh / custom-rules handler ends in.
+func (e *c01Env) startReload() {
+	e.reloadStop, e.reloadDone = make(chan struct{}), make(chan struct{})
+	go func(stop, done chan struct{}) {
+		defer close(done)
+		for {
+			select {
+			case <-stop:
+				return
+			default:
+				e.f.EnableFilters(false)
+			}
+		}
+	}(e.reloadStop, e.reloadDone)
+}
+
+func c01MinTTL(rrs []dns.RR) (ttl uint32) {
+	for i, rr := range rrs {
+		if t := rr.Header().Ttl; i == 0 || t < ttl {
+			ttl = t
+		}
+	}
+
+	return ttl
+}
+
+func (e *c01Env) run(fields []string) (obs []string) {
+	switch fields[0] {
+	case "C01.q", "C02.q":
+		c := c01Decode(fields)
+		e.configure(c)
+
+		return e.query(c.cip, c.qname, c.qtype)
+	case "C02.sreset":
+		// sequence mode: one configuration, then C02.sq queries against a proxy with the cache on
+		// (fields[1..] are the "cache form" oracle for the driver: flag, n, n records)
+		skip := 3 + vutil.Atoi(fields[2])
+		c := c01Decode(append([]string{fields[0]}, fields[skip:]...))
+		e.configure(c)
+		e.s.dnsProxy.ClearCache()
+
+		return []string{"reset"}
+	case "C02.sq":
+		c01TTLNorm = c01MinTTL(e.cur.uans)
+		defer func() { c01TTLNorm = 0 }()
+
+		return e.query(e.cur.cip, vutil.Unhex(fields[1]), uint16(vutil.Atoi(fields[2])))
+	case "C01.rl":
+		// reload mode: the case plus a bulk list, engines rebuilt in a loop while C01.rq lines query
+		n := vutil.Atoi(fields[1])
+		c := c01Decode(append([]string{fields[0]}, fields[2:]...))
+		c.block = append(c.block, c01List{enabled: true, lines: c01Filler(n)})
+		e.configure(c)
+		e.startReload()
+
+		return []string{"started"}
+	case "C01.rq":
+		qname, qtype := vutil.Unhex(fields[1]), uint16(vutil.Atoi(fields[2]))
+		par, reps := vutil.Atoi(fields[3]), vutil.Atoi(fields[4])
+		var mu sync.Mutex
+		seen := map[string]bool{}
+		var wg sync.WaitGroup
+		for g := 0; g < par; g++ {
+			wg.Add(1)
+			go func() {
+				defer wg.Done()
+				for i := 0; i < reps; i++ {
+					o := strings.Join(e.query(e.cur.cip, qname, qtype), "\t")
+					mu.Lock()
+					seen[o] = true
+					mu.Unlock()
+				}
+			}()
+		}
+		wg.Wait()
+		var all []string
+		for o := range seen {
+			all = append(all, o)
+		}
+		sort.Strings(all)
+		obs = []string{strconv.Itoa(len(all))}
+		for _, o := range all {
+			obs = append(obs, strings.Split(o, "\t")...)
+		}
+
+		return obs
+	default:
+		panic("unknown op " + fields[0])
+	}
 }
 
 // ---------------------------------------------------------------- generator
@@ -1118,7 +1305,58 @@ func c01Gen(r *rand.Rand, emit vutil.Emit) {
 }
 
 func TestVerifC01(t *testing.T) {
-	e := c01NewEnv(t)
+	e := c01NewEnv(t, 0)
 	c01LoadServices(e)
 	vutil.Main(t, c01Gen, e.run)
+}
+
+// c01ReloadGen: per block one configuration with protection and filtering on
+// plus a bulk list of nfill rules, then query lines (each sent par x reps times
+// concurrently with the engine rebuild loop) for the case's name and related names.
+func c01ReloadGen(r *rand.Rand, emit vutil.Emit) {
+	blocks := vutil.N(3)
+	nfill := 30000
+	for b := 0; b < blocks; b++ {
+		c := c01GenCase(r)
+		c.prot, c.pause, c.gfilt = true, "none", true
+		if c.hasClient && c.useOwn {
+			c.cfilt = true
+		}
+		c.extraProbes = nil
+		base0 := strings.TrimSuffix(strings.ToLower(c.qname), ".")
+		if base0 == "" || strings.HasPrefix(base0, ".") {
+			base0 = "example.org"
+			c.qname = base0 + "."
+		}
+		// names with a known constant verdict: blocked by a list rule, by a custom rule,
+		// by a hosts-style line, and allow-listed although a rule blocks them
+		c.custom = append(c.custom, "||blk."+base0+"^", "10.1.2.3 hst."+base0, "||alw."+base0+"^")
+		c.block = append(c.block, c01List{enabled: true, lines: []string{"||lst." + base0 + "^$important"}})
+		c.allow = append(c.allow, c01List{enabled: true, lines: []string{"||alw." + base0 + "^"}})
+		f := c.fields("C01.rl")
+		line := append([]string{f[0], strconv.Itoa(nfill)}, f[1:]...)
+		emit(append(line, "0", "0")...)
+		base := base0
+		names := []string{c.qname, "blk." + base + ".", "x.BLK." + base + ".", "hst." + base + ".", "lst." + base + ".", "alw." + base + "."}
+		for i := 0; i < 2; i++ {
+			names = append(names, c01Related(r, base)+".")
+		}
+		for i := 0; i < 24; i++ {
+			n := names[i%len(names)]
+			if n == "." || strings.HasPrefix(n, ".") {
+				n = c.qname
+			}
+			qt := c.qtype
+			if i >= len(names) {
+				qt = vutil.Pick(r, c01Qtypes)
+			}
+			emit("C01.rq", vutil.Hex(n), strconv.Itoa(int(qt)), "8", "3")
+		}
+	}
+}
+
+func TestVerifC01Reload(t *testing.T) {
+	e := c01NewEnv(t, 0)
+	c01LoadServices(e)
+	vutil.Main(t, c01ReloadGen, e.run)
 }
